@@ -45,7 +45,8 @@ pub fn cluster_properties() -> Vec<PropertyConfig> {
         PropertyConfig {
             id: "C02",
             profiles: &[General, Kill, Retract, Dag, Client, Fail],
-            quick_runs: 30_000,
+            // (a refusal that is never withdrawn needs a coincidence of about 1 run in 17 000)
+            quick_runs: 60_000,
             thorough_runs: 600_000,
             triggers: &["quiescent_runs"],
             rule: "one run = faults then fair suffix; non-trivial = the run reached quiescence with at least one launch (liveness clause evaluated) ; distinct = distinct observable-log hash",
